@@ -142,6 +142,37 @@ pub fn slice_any<T, F: Fn(&T) -> bool>(s: &[T], f: F) -> (r: bool)
             !r ==> forall|i: int| 0 <= i < s@.len() ==> f.ensures((&#[trigger] s@[i],), false),
 { s.iter().any(f) }
 
+// Iterator::filter_map over a slice iterator, collected (N17): f's results on the elements, in order, the None results dropped
+pub open spec fn somes<U>(o: Seq<Option<U>>) -> Seq<U>
+    decreases o.len()
+{
+    if o.len() == 0 { Seq::empty() } else {
+        match o.last() { Some(u) => somes(o.drop_last()).push(u), None => somes(o.drop_last()) }
+    }
+}
+#[verifier::external_body]
+pub fn slice_filter_map<T, U, F: Fn(&T) -> Option<U>>(s: &[T], f: F) -> (r: Vec<U>)
+    requires forall|i: int| 0 <= i < s@.len() ==> f.requires((&#[trigger] s@[i],))
+    ensures exists|o: Seq<Option<U>>| o.len() == s@.len()
+                && (forall|i: int| 0 <= i < s@.len() ==> f.ensures((&s@[i],), #[trigger] o[i])) && r@ == somes(o)
+{ unimplemented!() }
+
+/// the first occurrence of every element, in order of first occurrence
+pub open spec fn unique_of(s: Seq<Sym>) -> Seq<Sym>
+    decreases s.len()
+{
+    if s.len() == 0 { Seq::empty() } else {
+        let r = unique_of(s.drop_last());
+        if r.contains(s.last()) { r } else { r.push(s.last()) }
+    }
+}
+// itertools::Itertools::unique + collect (N17): "filters out elements that have already been produced once during the iteration"
+// (NamedSymbol's Eq and Hash both go by id; the unit's NamedSymbol is its id, N9)
+#[verifier::external_body]
+pub fn collect_unique(v: Vec<NamedSymbol>) -> (r: Vec<NamedSymbol>)
+    ensures r@ == unique_of(v@)
+{ unimplemented!() }
+
 /// v is an element of vs, spelled with the trigger the std contract of <[T]>::contains produces
 pub open spec fn sym_in(vs: Seq<Sym>, v: Sym) -> bool {
     exists|i: int| 0 <= i < vs.len() && #[trigger] PartialEqSpec::eq_spec(&vs[i], &v)
